@@ -83,24 +83,58 @@ async fn scenario(a: &ShardArgs, idx: u64) {
     }
     let mut sim = MasterSim::start(mc, &acs).await;
     let t0 = sim.now();
-    let mut am: Vec<AssocM> = acs.iter().enumerate().map(|(i, c)| AssocM { t_r: c.response_timeout_ms, keep_alive: c.keep_alive_ms, last_rx: t0, last_served: i as u64 }).collect();
-    let mut hist: Vec<String> = vec![format!("assocs: {:?}", acs.iter().map(|c| (c.addr, c.response_timeout_ms, c.keep_alive_ms)).collect::<Vec<_>>())];
+    let mut am: Vec<AssocM> = acs
+        .iter()
+        .enumerate()
+        .map(|(i, c)| AssocM {
+            t_r: c.response_timeout_ms,
+            keep_alive: c.keep_alive_ms,
+            last_rx: t0,
+            last_served: i as u64,
+        })
+        .collect();
+    let mut hist: Vec<String> = vec![format!(
+        "assocs: {:?}",
+        acs.iter()
+            .map(|c| (c.addr, c.response_timeout_ms, c.keep_alive_ms))
+            .collect::<Vec<_>>()
+    )];
     // polls
-    let vars = [(crate::app::Variation::Group1Var0, [1u8, 0, 6]), (crate::app::Variation::Group10Var0, [10, 0, 6]), (crate::app::Variation::Group20Var0, [20, 0, 6])];
+    let vars = [
+        (crate::app::Variation::Group1Var0, [1u8, 0, 6]),
+        (crate::app::Variation::Group10Var0, [10, 0, 6]),
+        (crate::app::Variation::Group20Var0, [20, 0, 6]),
+    ];
     let mut polls: Vec<PollM> = vec![];
     for i in 0..n_assoc {
         for j in 0..r.usize_below(3) {
             let period = *r.pick(&[300u64, 700, 1000, 2500]);
             let mut h = sim.assocs[i].1.clone();
             let now = sim.now();
-            let ph = h.add_poll(crate::master::ReadRequest::all_objects(vars[j].0), std::time::Duration::from_millis(period)).await;
+            let ph = h
+                .add_poll(
+                    crate::master::ReadRequest::all_objects(vars[j].0),
+                    std::time::Duration::from_millis(period),
+                )
+                .await;
             settle().await;
             let Ok(ph) = ph else {
                 out::count("harness_add_poll_failed", 1);
                 return;
             };
-            hist.push(format!("t={now} add poll #{} assoc={i} g{}v0 period={period}", polls.len(), vars[j].1[0]));
-            polls.push(PollM { assoc: i, hdr: vars[j].1, period, due: now + period, handle: ph, inflight: false });
+            hist.push(format!(
+                "t={now} add poll #{} assoc={i} g{}v0 period={period}",
+                polls.len(),
+                vars[j].1[0]
+            ));
+            polls.push(PollM {
+                assoc: i,
+                hdr: vars[j].1,
+                period,
+                due: now + period,
+                handle: ph,
+                inflight: false,
+            });
         }
     }
     // script
@@ -123,7 +157,11 @@ async fn scenario(a: &ShardArgs, idx: u64) {
             _ => Stim::Submit(ai, 1),
         };
         // traffic stimuli at odd instants so that they never coincide with a model deadline
-        let t = if matches!(st, Stim::Unsol(_) | Stim::Stale(_) | Stim::LinkNoise(_)) { t / 10 * 10 + 3 } else { t };
+        let t = if matches!(st, Stim::Unsol(_) | Stim::Stale(_) | Stim::LinkNoise(_)) {
+            t / 10 * 10 + 3
+        } else {
+            t
+        };
         script.push((t, st));
     }
     script.sort_by_key(|x| x.0);
@@ -145,23 +183,39 @@ async fn scenario(a: &ShardArgs, idx: u64) {
         // ---- everything the master wrote
         for x in sim.collect() {
             let (ord, t, dest, frag): (u64, u64, u16, Option<Vec<u8>>) = match x {
-                Rx::Fragment { ord, t_ms, dest, bytes, .. } => {
+                Rx::Fragment {
+                    ord,
+                    t_ms,
+                    dest,
+                    bytes,
+                    ..
+                } => {
                     if bytes.len() == 2 && bytes[1] == ra::F_CONFIRM {
                         continue;
                     }
                     (ord, t_ms, dest, Some(bytes))
                 }
-                Rx::Link { ord, t_ms, frame } if frame.ctrl & 0x4F == rl::F_REQUEST_LINK_STATUS => (ord, t_ms, frame.dest, None),
+                Rx::Link { ord, t_ms, frame } if frame.ctrl & 0x4F == rl::F_REQUEST_LINK_STATUS => {
+                    (ord, t_ms, frame.dest, None)
+                }
                 Rx::Link { .. } => continue,
                 Rx::Garbage { why, .. } => {
-                    violations.push(("wire".into(), "garbage".into(), format!("master wrote garbage: {why}")));
+                    violations.push((
+                        "wire".into(),
+                        "garbage".into(),
+                        format!("master wrote garbage: {why}"),
+                    ));
                     continue;
                 }
             };
             writes += 1;
             let ai = (dest.wrapping_sub(BASE)) as usize;
             if ai >= n_assoc {
-                violations.push(("wire".into(), "unknown-destination".into(), format!("request to unknown address {dest}")));
+                violations.push((
+                    "wire".into(),
+                    "unknown-destination".into(),
+                    format!("request to unknown address {dest}"),
+                ));
                 continue;
             }
             // the previous request completes by time-out if it was never answered
@@ -181,19 +235,36 @@ async fn scenario(a: &ShardArgs, idx: u64) {
                 None => What::KeepAlive,
                 Some(b) => {
                     if b[1] == ra::F_READ && b.len() == 5 {
-                        match polls.iter().position(|p| p.assoc == ai && p.hdr[..] == b[2..5]) {
+                        match polls
+                            .iter()
+                            .position(|p| p.assoc == ai && p.hdr[..] == b[2..5])
+                        {
                             Some(p) => What::Poll(p),
                             None => {
-                                violations.push(("wire".into(), "unknown-read".into(), format!("unexpected READ {}", hexs(b))));
+                                violations.push((
+                                    "wire".into(),
+                                    "unknown-read".into(),
+                                    format!("unexpected READ {}", hexs(b)),
+                                ));
                                 continue;
                             }
                         }
                     } else {
-                        let id = if b[1] == ra::F_READ && b.len() >= 9 { u16::from_le_bytes([b[5], b[6]]) } else if b[1] == ra::F_WRITE && b.len() >= 11 { u16::from_le_bytes([b[7], b[8]]) } else { 0 };
+                        let id = if b[1] == ra::F_READ && b.len() >= 9 {
+                            u16::from_le_bytes([b[5], b[6]])
+                        } else if b[1] == ra::F_WRITE && b.len() >= 11 {
+                            u16::from_le_bytes([b[7], b[8]])
+                        } else {
+                            0
+                        };
                         match users.iter().position(|u| u.assoc == ai && u.id == id) {
                             Some(u) => What::User(u),
                             None => {
-                                violations.push(("wire".into(), "unknown-request".into(), format!("unexpected request {}", hexs(b))));
+                                violations.push((
+                                    "wire".into(),
+                                    "unknown-request".into(),
+                                    format!("unexpected request {}", hexs(b)),
+                                ));
                                 continue;
                             }
                         }
@@ -239,7 +310,16 @@ async fn scenario(a: &ShardArgs, idx: u64) {
             match &what {
                 What::Poll(p) => {
                     if t < polls[*p].due {
-                        violations.push(("Q2_poll_early".into(), "poll".into(), format!("t={t}: poll #{p} (period {}) sent {} ms before it is due (t={})", polls[*p].period, polls[*p].due - t, polls[*p].due)));
+                        violations.push((
+                            "Q2_poll_early".into(),
+                            "poll".into(),
+                            format!(
+                                "t={t}: poll #{p} (period {}) sent {} ms before it is due (t={})",
+                                polls[*p].period,
+                                polls[*p].due - t,
+                                polls[*p].due
+                            ),
+                        ));
                     } else {
                         out::count("Q2_poll_not_early_ok", 1);
                     }
@@ -254,13 +334,19 @@ async fn scenario(a: &ShardArgs, idx: u64) {
                     } else {
                         out::count("Q4_keep_alive_after_silence_ok", 1);
                     }
-                    if polls.iter().any(|p| p.assoc == ai && !p.inflight && p.due <= t) {
+                    if polls
+                        .iter()
+                        .any(|p| p.assoc == ai && !p.inflight && p.due <= t)
+                    {
                         violations.push(("Q4_keep_alive_before_poll".into(), "keep-alive".into(), format!("t={t}: link status request to association {ai} while one of its polls is due")));
                     }
                 }
                 What::User(u) => {
                     // Q1 FIFO within the association
-                    if let Some(earlier) = users.iter().position(|x| x.assoc == ai && !x.sent && x.stamp < users[*u].stamp) {
+                    if let Some(earlier) = users
+                        .iter()
+                        .position(|x| x.assoc == ai && !x.sent && x.stamp < users[*u].stamp)
+                    {
                         violations.push(("Q1_fifo".into(), "user".into(), format!("t={t}: request id {} of association {ai} sent before id {} which was submitted earlier", users[*u].id, users[earlier].id)));
                     } else {
                         out::count("Q1_fifo_ok", 1);
@@ -280,7 +366,10 @@ async fn scenario(a: &ShardArgs, idx: u64) {
                 What::User(_) => user_waiting.iter().map(|x| x.0).collect(),
                 _ => timer_eligible.iter().map(|x| x.0).collect(),
             };
-            if let Some(b) = rivals.iter().find(|b| **b != ai && am[**b].last_served < am[ai].last_served) {
+            if let Some(b) = rivals
+                .iter()
+                .find(|b| **b != ai && am[**b].last_served < am[ai].last_served)
+            {
                 violations.push(("Q3_turns".into(), format!("{:?}", kind(&what)), format!("t={t}: association {ai} served (last served stamp {}) although association {b} (last served stamp {}) also has a {:?} waiting", am[ai].last_served, am[*b].last_served, kind(&what))));
             } else if rivals.iter().any(|b| *b != ai) {
                 out::count("Q3_turn_taken_in_order_ok", 1);
@@ -313,7 +402,13 @@ async fn scenario(a: &ShardArgs, idx: u64) {
                 inconclusive = true;
             }
             let seq = frag.as_ref().map(|b| b[0] & 15).unwrap_or(0);
-            outstanding = Some(Outstanding { assoc: ai, what, sent_t: t, seq, reply_at: delay.map(|d| (t + d).max(now)) });
+            outstanding = Some(Outstanding {
+                assoc: ai,
+                what,
+                sent_t: t,
+                seq,
+                reply_at: delay.map(|d| (t + d).max(now)),
+            });
         }
         if inconclusive {
             break;
@@ -331,11 +426,22 @@ async fn scenario(a: &ShardArgs, idx: u64) {
                     let addr = BASE + o.assoc as u16;
                     match &o.what {
                         What::KeepAlive => sim.send_link(addr, rl::F_LINK_STATUS),
-                        What::User(u) if users[*u].write => sim.send_from(addr, &ra::B::response(ra::FIR | ra::FIN | o.seq, false, 0, 0).done()),
-                        _ => sim.send_from(addr, &ra::B::response(ra::FIR | ra::FIN | o.seq, false, 0, 0).range8(30, 1, 0, 0, &[1, 7, 0, 0, 0]).done()),
+                        What::User(u) if users[*u].write => sim.send_from(
+                            addr,
+                            &ra::B::response(ra::FIR | ra::FIN | o.seq, false, 0, 0).done(),
+                        ),
+                        _ => sim.send_from(
+                            addr,
+                            &ra::B::response(ra::FIR | ra::FIN | o.seq, false, 0, 0)
+                                .range8(30, 1, 0, 0, &[1, 7, 0, 0, 0])
+                                .done(),
+                        ),
                     }
                     stimuli += 1;
-                    hist.push(format!("t={now} <- reply from assoc={} to {:?}", o.assoc, o.what));
+                    hist.push(format!(
+                        "t={now} <- reply from assoc={} to {:?}",
+                        o.assoc, o.what
+                    ));
                     am[o.assoc].last_rx = now;
                     if let What::Poll(p) = o.what {
                         polls[p].due = now + polls[p].period;
@@ -353,7 +459,10 @@ async fn scenario(a: &ShardArgs, idx: u64) {
                     polls[p].inflight = false;
                 }
                 t_free = expiry;
-                hist.push(format!("t={expiry} (time-out of {:?} assoc={})", o.what, o.assoc));
+                hist.push(format!(
+                    "t={expiry} (time-out of {:?} assoc={})",
+                    o.what, o.assoc
+                ));
                 outstanding = None;
                 continue;
             }
@@ -369,12 +478,23 @@ async fn scenario(a: &ShardArgs, idx: u64) {
                             let id = next_user_id;
                             next_user_id += 1;
                             let write = r.chance(1, 3);
-                            let req = if write { UserReq::WriteDeadBands(vec![(id, id)]) } else { UserReq::ReadRange16(30, 2, id, id) };
+                            let req = if write {
+                                UserReq::WriteDeadBands(vec![(id, id)])
+                            } else {
+                                UserReq::ReadRange16(30, 2, id, id)
+                            };
                             sim.submit(ai, req);
                             settle().await;
                             let stamp = io::bump();
                             hist.push(format!("t={now} submit id={id} assoc={ai} write={write}"));
-                            users.push(UserM { assoc: ai, id, write, submit_t: now, stamp, sent: false });
+                            users.push(UserM {
+                                assoc: ai,
+                                id,
+                                write,
+                                submit_t: now,
+                                stamp,
+                                sent: false,
+                            });
                         }
                     }
                     Stim::Demand(p) => {
@@ -390,7 +510,16 @@ async fn scenario(a: &ShardArgs, idx: u64) {
                     }
                     Stim::Unsol(ai) => {
                         unsol_seq = (unsol_seq + 1) & 15;
-                        sim.send_from(BASE + ai as u16, &ra::B::response(ra::FIR | ra::FIN | ra::UNS | ra::CON | unsol_seq, true, 0, 0).done());
+                        sim.send_from(
+                            BASE + ai as u16,
+                            &ra::B::response(
+                                ra::FIR | ra::FIN | ra::UNS | ra::CON | unsol_seq,
+                                true,
+                                0,
+                                0,
+                            )
+                            .done(),
+                        );
                         am[ai].last_rx = now;
                         hist.push(format!("t={now} <- unsolicited (empty) from assoc={ai}"));
                         settle().await;
@@ -398,7 +527,10 @@ async fn scenario(a: &ShardArgs, idx: u64) {
                     Stim::Stale(ai) => {
                         // a solicited response nobody asked for (sequence chosen not to match an outstanding request)
                         let s = outstanding.as_ref().map(|o| (o.seq + 7) & 15).unwrap_or(5);
-                        sim.send_from(BASE + ai as u16, &ra::B::response(ra::FIR | ra::FIN | s, false, 0, 0).done());
+                        sim.send_from(
+                            BASE + ai as u16,
+                            &ra::B::response(ra::FIR | ra::FIN | s, false, 0, 0).done(),
+                        );
                         am[ai].last_rx = now;
                         hist.push(format!("t={now} <- stale response from assoc={ai}"));
                         settle().await;
@@ -438,18 +570,24 @@ async fn scenario(a: &ShardArgs, idx: u64) {
                         sim.send_link(BASE + ai as u16, rl::F_LINK_STATUS);
                         am[ai].last_rx = now;
                         // a LINK_STATUS from the outstation that is being asked IS the answer
-                        if matches!(&outstanding, Some(o) if o.assoc == ai && matches!(o.what, What::KeepAlive)) {
+                        if matches!(&outstanding, Some(o) if o.assoc == ai && matches!(o.what, What::KeepAlive))
+                        {
                             t_free = now;
                             outstanding = None;
                         }
-                        hist.push(format!("t={now} <- unrequested LINK_STATUS from assoc={ai}"));
+                        hist.push(format!(
+                            "t={now} <- unrequested LINK_STATUS from assoc={ai}"
+                        ));
                         settle().await;
                     }
                 }
                 continue;
             }
         }
-        if (now >= end && outstanding.is_none() && users.iter().all(|u| u.sent)) || writes > 150 || now > end + 60_000 {
+        if (now >= end && outstanding.is_none() && users.iter().all(|u| u.sent))
+            || writes > 150
+            || now > end + 60_000
+        {
             break;
         }
         // ---- advance to the next thing the harness has to do, in small steps so that requests are noticed promptly
@@ -469,7 +607,14 @@ async fn scenario(a: &ShardArgs, idx: u64) {
     // ---- at the end: every user request was sent (none starved) and produced exactly one outcome
     for u in &users {
         if !u.sent && writes <= 150 && !spun {
-            violations.push(("Q1_user_starved".into(), "user".into(), format!("request id {} of association {} submitted t={} was never sent", u.id, u.assoc, u.submit_t)));
+            violations.push((
+                "Q1_user_starved".into(),
+                "user".into(),
+                format!(
+                    "request id {} of association {} submitted t={} was never sent",
+                    u.id, u.assoc, u.submit_t
+                ),
+            ));
         }
     }
     // ---- Q6 no spinning: scheduler passes are bounded by the things that happened
@@ -490,16 +635,49 @@ async fn scenario(a: &ShardArgs, idx: u64) {
             P,
             &format!("C19.{rule}"),
             sig,
-            J::obj(vec![("why", J::s(why.clone())), ("history", J::arr(hist.iter().cloned()))]),
-            J::obj(vec![("check", J::s("c19")), ("seed", J::U(a.seed)), ("shard", J::U(a.shard)), ("nshards", J::U(a.nshards)), ("scenario", J::U(idx))]),
+            J::obj(vec![
+                ("why", J::s(why.clone())),
+                ("history", J::arr(hist.iter().cloned())),
+            ]),
+            J::obj(vec![
+                ("check", J::s("c19")),
+                ("seed", J::U(a.seed)),
+                ("shard", J::U(a.shard)),
+                ("nshards", J::U(a.nshards)),
+                ("scenario", J::U(idx)),
+            ]),
         );
     }
-    out::distinct(&format!("n{}polls{}ka{}users{}", n_assoc, polls.len(), am.iter().filter(|m| m.keep_alive.is_some()).count(), users.len().min(6)));
+    out::distinct(&format!(
+        "n{}polls{}ka{}users{}",
+        n_assoc,
+        polls.len(),
+        am.iter().filter(|m| m.keep_alive.is_some()).count(),
+        users.len().min(6)
+    ));
     for p in crate::verif::util::take_panics() {
         if p.message.starts_with("verif: spin") {
             continue;
         }
-        out::violation(P, "C19.panic", &crate::verif::util::norm_location(&p.location), J::obj(vec![("why", J::s(format!("panic {} at {}", p.message, p.location))), ("history", J::arr(hist.iter().cloned()))]), J::obj(vec![("check", J::s("c19")), ("seed", J::U(a.seed)), ("shard", J::U(a.shard)), ("nshards", J::U(a.nshards)), ("scenario", J::U(idx))]));
+        out::violation(
+            P,
+            "C19.panic",
+            &crate::verif::util::norm_location(&p.location),
+            J::obj(vec![
+                (
+                    "why",
+                    J::s(format!("panic {} at {}", p.message, p.location)),
+                ),
+                ("history", J::arr(hist.iter().cloned())),
+            ]),
+            J::obj(vec![
+                ("check", J::s("c19")),
+                ("seed", J::U(a.seed)),
+                ("shard", J::U(a.shard)),
+                ("nshards", J::U(a.nshards)),
+                ("scenario", J::U(idx)),
+            ]),
+        );
     }
     if a.replay.is_some() {
         for h in &hist {
@@ -520,7 +698,10 @@ fn kind(w: &What) -> &'static str {
 }
 
 pub fn run(a: &ShardArgs) -> Result<(), String> {
-    let only: Option<u64> = a.replay.as_ref().and_then(|p| super::common::replay_scenario(p));
+    let only: Option<u64> = a
+        .replay
+        .as_ref()
+        .and_then(|p| super::common::replay_scenario(p));
     let n = a.n(20000);
     for idx in 0..n {
         if idx % a.nshards != a.shard {
